@@ -870,6 +870,10 @@ class TenSym(PySym):
                     try:
                         sg = self.sign(x - y)
                     except Unsupported:
+                        if isinstance(op, (ast.Lt, ast.LtE, ast.Gt, ast.GtE, ast.Eq, ast.NotEq)) and sh != ():
+                            # an element of a mask that depends on the values: an opaque truth value (deciding it - np.all, an index, an `if` - is what raises)
+                            out.append(self.fn("cmp" + type(op).__name__, x, y))
+                            continue
                         raise Unsupported("comparison of symbolic values: %s" % (src(n) if n is not None else "?"))
                     cx, cy = sg, 0
                 out.append(Rat(Poly.const(int(self.compare(op, cx, cy)))))
@@ -1416,6 +1420,11 @@ class TenSym(PySym):
             return Ten.full(t.shape, Rat(Poly.const(0 if cn == "np.zeros_like" else 1)))
         if cn in ("np.sqrt", "np.cos", "np.sin", "np.arccos", "np.exp", "np.log", "np.abs", "np.cbrt", "np.tan", "np.arcsin"):
             f = {"arccos": "acos", "arcsin": "asin"}.get(last, last)
+            if f == "abs":
+                def _abs(x):
+                    c_ = x.const_value() if isinstance(x, Rat) else None
+                    return Rat(Poly.const(abs(c_))) if c_ is not None else self.fn("abs", x)
+                return self.into_out(n, 1, self.elementwise(_abs, A(0)))
             return self.into_out(n, 1, self.elementwise(lambda x: self.fn(f, x), A(0)))
         if cn in ("np.allclose",):
             ta, tb = self.to_ten(A(0)), self.to_ten(A(1))
@@ -1519,16 +1528,30 @@ class TenSym(PySym):
             raise Unsupported("call %s" % cn)
         if cn in ("np.logical_not", "np.logical_and", "np.logical_or", "np.invert"):
             ts_ = [self.to_ten(self.ex(a)) for a in n.args]
-            cs = [[self.concrete(x) != 0 for x in t_.data] for t_ in ts_]
+
+            def tv_(x):
+                c_ = x.const_value()
+                return None if c_ is None else (c_ != 0)
             if cn in ("np.logical_not", "np.invert"):
-                res = Ten(ts_[0].shape, [Rat(Poly.const(int(not c))) for c in cs[0]])
+                res = Ten(ts_[0].shape, [Rat(Poly.const(int(not tv_(x)))) if tv_(x) is not None else self.fn("not", x) for x in ts_[0].data])
             else:
                 sh = bshape(ts_[0].shape, ts_[1].shape)
                 a_, b_ = bcast(ts_[0], sh), bcast(ts_[1], sh)
-                f_ = (lambda x, y: x and y) if cn == "np.logical_and" else (lambda x, y: x or y)
-                res = Ten(sh, [Rat(Poly.const(int(f_(self.concrete(x) != 0, self.concrete(y) != 0)))) for x, y in zip(a_.data, b_.data)])
+                is_and = cn == "np.logical_and"
+                out_ = []
+                for x, y in zip(a_.data, b_.data):
+                    tx, ty = tv_(x), tv_(y)
+                    if tx is not None and ty is not None:
+                        out_.append(Rat(Poly.const(int((tx and ty) if is_and else (tx or ty)))))
+                    elif (is_and and (tx is False or ty is False)) or (not is_and and (tx is True or ty is True)):
+                        out_.append(Rat(Poly.const(0 if is_and else 1)))
+                    elif tx is not None or ty is not None:
+                        out_.append(y if tx is not None else x)      # True and y = y; False or y = y
+                    else:
+                        out_.append(self.fn("and" if is_and else "or", x, y))
+                res = Ten(sh, out_)
             res.isbool = True
-            return res if res.shape != () else bool(self.concrete(res.data[0]))
+            return res if res.shape != () else (bool(self.concrete(res.data[0])) if res.data[0].const_value() is not None else res)
         if cn in ("np.clip",):
             t = self.to_ten(A(0))
             lo, hi = self.lift(A(1)), self.lift(A(2))
